@@ -52,6 +52,8 @@ POSITIONS = [
     ('c-user-A', 'C', "A='user A'\nattr3={L}"), ('c-user-_A', 'C', "_A='user _A'\nattr4={L}"), ('c-user-A-read', 'C', "A='user A'\nobs(A)\nattr5={L}"),
     ('f-user-A', 'F', "A='user A'\nobs(A)\nf_v2={L}"), ('m-user-B', 'M', "B='user B'\nobs(B)\nm_v2={L}"),
     ('k-return', 'K', 'return {L}'),
+    # a function whose parameters carry the very names the renamer hands out first
+    ('p-use', 'P', 'obs(({L},A))'), ('p-use-kw', 'P', 'obs(({L},B,mode))'),
     ('a-await', 'A', 'return {L}'),
 ]
 POS_D = {p[0]: p for p in POSITIONS}
@@ -77,7 +79,7 @@ def lit_expr(lit, mult):
 
 def build(selection, head=''):
     """selection: list of (position name, literal expression)"""
-    cont = {'M': [], 'F': [], 'G': [], 'C': [], 'K': [], 'A': []}
+    cont = {'M': [], 'F': [], 'G': [], 'C': [], 'K': [], 'A': [], 'P': []}
     for pos, expr in selection:
         _, c, tmpl = POS_D[pos]
         cont[c].append(tmpl.replace('{L}', expr.replace('{', '{{').replace('}', '}}')).format())
@@ -104,6 +106,10 @@ def build(selection, head=''):
         if cont['K']:
             out.append('obs(C_cls().k_method())')
         out.append('obs(C_cls)')
+    if cont['P']:
+        out.append('def p_fn(A,B=2,*,mode=0):\n' + indent(cont['P'] + ['return (A,B,mode)']))
+        out.append('obs(p_fn(7))')
+        out.append('obs(p_fn(7,B=8,mode=9))')
     if cont['A']:
         out.append('async def a_fn():\n' + indent(cont['A'][:1]))
         out.append('obs(run(a_fn()))')
